@@ -140,7 +140,7 @@ func genRelayCfg(g *gen, focus string) *Cfg {
 	}
 	// every next-hop address may be a TCP destination
 	for _, ip := range topo.hops {
-		for _, port := range []int{5060, 5080, 45060} {
+		for _, port := range []int{5060, 5080, 45060, 65535} {
 			c.TCPSinks = append(c.TCPSinks, hostPort(ip, port))
 		}
 	}
@@ -192,7 +192,7 @@ func genRouteTable(g *gen, c *Cfg, n int) []RouteCfg {
 		if g.chance(50) {
 			r.NextHop = hop
 		} else {
-			r.NextHop = hop + ":" + g.pick("5060", "5080")
+			r.NextHop = hop + ":" + g.pick("5060", "5080", "5080", "45060", "65535")
 		}
 		out = append(out, r)
 	}
